@@ -301,6 +301,17 @@ func execChain(f []string) string {
 			return fmt.Sprintf("build-err block %d: %v", i+1, err)
 		}
 	}
+	// a competing block at the tip height (same work, seen second): stored, indexed, but not in the main chain
+	var side *btcutil.Block
+	if len(blocks) > 0 {
+		alt := make([]cBlock, len(abs))
+		copy(alt, abs)
+		alt[len(alt)-1] = cBlock{cTx{outs: []cOut{{amt: 1, script: []byte{0x53}}}}}
+		side = buildBlocks(params, alt)[len(alt)-1]
+		if _, _, err := ch.ProcessBlock(side, blockchain.BFNone); err != nil {
+			return fmt.Sprintf("build-err side block: %v", err)
+		}
+	}
 	if err := ch.FlushUtxoCache(blockchain.FlushRequired); err != nil {
 		return "flush-err"
 	}
@@ -416,6 +427,14 @@ func execChain(f []string) string {
 		}
 		if _, err := ch.BlockByHeight(int32(len(blocks) + 1)); err == nil {
 			return "blk=phantom"
+		}
+		if side != nil {
+			if _, err := ch.BlockByHash(side.Hash()); err == nil {
+				return "blk=side-chain-block-served"
+			}
+			if ok, err := ch.HaveBlock(side.Hash()); err != nil || !ok {
+				return "blk=side-chain-block-lost"
+			}
 		}
 		return "blk=ok"
 	}
